@@ -531,7 +531,7 @@ def tasks(tier):
     for i in range(0, m, step):
         t.append({'k': 'avs', 'n': n, 'lo': i, 'hi': min(m, i + step)})
     t.append({'k': 'ava', 'n': n, 'block': 24 if T else 40})
-    ncomb = 16 if T else 6
+    ncomb = 12 if T else 6
     for cfg in ft_configs(tier):
         masks = [None]
         if cfg['sol'] == 'full3':
@@ -548,9 +548,10 @@ def tasks(tier):
         for dt, val in (('i4', 1), ('bool', 1), ('i4', 64)):
             if (dt, val) != ('i4', 1) and cfg['sol'] not in (('full3', 'stag3') if T else ('full3',)):
                 continue
-            for part in ((0, 1) if T else (None,)):
+            full = T and cfg['sol'] in ('full3', 'stag3') and cfg['dtype'] == 'f8'
+            for part in ((0, 1) if full else (None,)):
                 t.append({'k': 'ftmask', 'cfg': cfg, 'ncomb': ncomb, 'dt': dt, 'val': val, 'part': part,
-                          'lens': list(range(1, 11)) if T else [1, 3, 10]})
+                          'lens': list(range(1, 11)) if full else [1, 3, 10]})
     return t
 
 
